@@ -107,9 +107,19 @@ RefSources(c) == <<c>> \o SelectSeq(Tail(C3(c)), Defines)
 \* an empty docstring documents nothing (0)
 IFACE == 99       \* the member as declared (with a docstring) by the interface I; not a class of the hierarchy
 DocState(x) == IF x = IFACE THEN "doc" ELSE member[x]
-HasDoc(x) == DocState(x) \in {"doc", "empty"}
+\* "hidden": defined and documented like "doc", but excluded from the documentation (privacy HIDDEN): Python still finds
+\* it, the documentation shows neither it nor what it overrides as if it were inherited
+HasDoc(x) == DocState(x) \in {"doc", "empty", "hidden"}
+Documents(x) == DocState(x) \in {"doc", "hidden"}
+Visible(x) == x = IFACE \/ member[x] # "hidden"
 RefDocOwner(c) == LET s == SelectSeq(RefSources(c), HasDoc) IN
-    IF Len(s) = 0 THEN 0 ELSE IF DocState(s[1]) = "doc" THEN s[1] ELSE 0
+    IF Len(s) = 0 THEN 0 ELSE IF Documents(s[1]) THEN s[1] ELSE 0
+
+\* the class page of c lists the member as inherited from the class lookup finds it in - unless that definition is
+\* hidden: then nothing is listed (the hidden definition still masks everything behind it)
+RefInherited(c) == IF RefFind(c) # 0 /\ Visible(RefFind(c)) THEN <<RefFind(c)>> ELSE <<>>
+\* "overrides X.f": the definition c.f overrides, when it is part of the documentation
+RefOverrides(c) == LET s == RefSources(c) IN IF Len(s) > 1 /\ Visible(s[2]) THEN s[2] ELSE 0
 
 \* the laws a method resolution order obeys (evaluated on the reference here, on the REAL mro by the harness)
 HeadIsSelf(c, L) == Len(L) > 0 /\ L[1] = c
@@ -168,12 +178,20 @@ InitMro(c) == LET r == Dfs(c, <<>>, fin) IN
                     ELSE [mro |-> m, warn |-> "none", fin |-> r.fin]
 \* ---- Class.find (model.py:783-792), Inheritable.docsources (:825-831), get_docstring (:1519-1538)
 PdFind(c) == FirstDefining(mro[c])
+\* templatewriter/util.py nested_bases + unmasked_attrs: chain i = mro[1..i] reversed; the member of mro[i] is listed when
+\* it is visible and no class before it in the order has a member of that name (visible or not)
+PdInherited(c) == SelectSeq(mro[c], LAMBDA b : /\ Defines(b) /\ Visible(b)
+                                                /\ \A j \in 1..Len(mro[c]) : (j < PosIn(mro[c], b)) => ~Defines(mro[c][j]))
+\* pages.get_override_info: the first definition after c along the order, mentioned when it is visible
+PdOverrides(c) == LET d == FirstDefining(Tail(mro[c])) IN IF d # 0 /\ Visible(d) THEN d ELSE 0
 \* extensions/zopeinterface.py:41-76: ZopeInterfaceFunction.docsources = the regular sources, THEN what the interfaces
 \* implemented by the class or by any of its bases (allImplementedInterfaces walks baseobjects) declare under the name
 HasIface(c) == \E x \in {c} \cup Anc(c) : x \in lay.impl
 PdSources(c) == <<c>> \o SelectSeq(Tail(mro[c]), Defines) \o (IF HasIface(c) THEN <<IFACE>> ELSE <<>>)
+\* epydoc2stan.ensure_parsed_docstring parses get_docstring(obj) for every object separately: what is rendered for c.f
+\* does not depend on which members were rendered before (PdRendered = PdDocOwner whatever the history)
 PdDocOwner(c) == LET s == SelectSeq(PdSources(c), HasDoc) IN
-    IF Len(s) = 0 THEN 0 ELSE IF DocState(s[1]) = "doc" THEN s[1] ELSE 0      \* "" stops the search, (None, source)
+    IF Len(s) = 0 THEN 0 ELSE IF Documents(s[1]) THEN s[1] ELSE 0      \* "" stops the search, (None, source)
 
 \* ---- a dotted lookup `C.f` made WHILE the modules are analysed (an alias statement `a = C.f`, a base `class X(C.f)`
 \*      placed right after the class statement): expandName -> Class.find -> Class.mro() with _mro still None
@@ -314,6 +332,8 @@ RefLaws == Done => \A c \in Classes : Consistent(c) =>
               /\ HeadIsSelf(c, C3(c)) /\ EachAncestorOnce(c, C3(c)) /\ LocalPrecedence(c, C3(c)) /\ Monotonic(c, C3(c))
 \* members are attributed / documented as attribute lookup along Python's order yields
 FindIsLookup == Done => \A c \in Classes : Consistent(c) => PdFind(c) = RefFind(c)
+InheritedTable == Done => \A c \in Classes : Consistent(c) => PdInherited(c) = RefInherited(c)
+OverridesNote == Done => \A c \in Classes : (Consistent(c) /\ Defines(c)) => PdOverrides(c) = RefOverrides(c)
 \* ... anything that is not on the MRO (an interface declaration) can only come after every definition along it, and can
 \* only document the member when nothing along the MRO does
 SourcesAreOverridden == Done => \A c \in Classes : (Consistent(c) /\ Defines(c)) =>
@@ -336,11 +356,16 @@ RefSourcesE(c) == IF Consistent(c) /\ Defines(c) THEN RefSources(c) ELSE <<>>
 RefDocE(c) == IF Consistent(c) /\ Defines(c) THEN RefDocOwner(c) ELSE 0
 PdSourcesE(c) == IF Defines(c) THEN PdSources(c) ELSE <<>>
 PdDocE(c) == IF Defines(c) THEN PdDocOwner(c) ELSE 0
+RefInhE(c) == IF Consistent(c) THEN RefInherited(c) ELSE <<>>
+RefOvrE(c) == IF Consistent(c) /\ Defines(c) THEN RefOverrides(c) ELSE 0
+PdOvrE(c) == IF Defines(c) THEN PdOverrides(c) ELSE 0
 Emit == Done => PrintT(ToJson([cid |-> cid, n |-> n, bases |-> bases, born |-> born, member |-> member, lay |-> lay,
                                c3 |-> PerClass(RefMro), own |-> PerClass(OwnInconsistent),
                                mro |-> mro, warn |-> warn,
                                find_ref |-> PerClass(RefFindE), find_pd |-> PerClass(PdFind),
                                src_ref |-> PerClass(RefSourcesE), src_pd |-> PerClass(PdSourcesE),
                                doc_ref |-> PerClass(RefDocE), doc_pd |-> PerClass(PdDocE),
+                               inh_ref |-> PerClass(RefInhE), inh_pd |-> PerClass(PdInherited),
+                               ovr_ref |-> PerClass(RefOvrE), ovr_pd |-> PerClass(PdOvrE),
                                early_pd |-> PerClass(PdEarlyFind), early_base_pd |-> PerClass(PdEarlyBase), late |-> PerClass(LateAbove)]))
 =============================================================================
